@@ -507,3 +507,10 @@ impl_tuple!(A:0, B:1, C:2, D:3, E:4);
 impl_tuple!(A:0, B:1, C:2, D:3, E:4, F:5);
 impl_tuple!(A:0, B:1, C:2, D:3, E:4, F:5, G:6);
 impl_tuple!(A:0, B:1, C:2, D:3, E:4, F:5, G:6, H:7);
+
+/// a Rust value from the JSON text of a model value (used for defaults in generated declarations)
+pub fn mv<T: ModelType>(json_text: &str) -> T {
+    T::from_model(&serde_json::from_str(json_text).expect("model json"))
+}
+/// an Option the derive macro cannot recognise by its spelling
+pub type Opt<T> = Option<T>;
